@@ -1,4 +1,5 @@
 import CdsVerif.Driver.LinCheck
+import CdsVerif.Gen.Dispatch
 open CdsVerif.Driver
 
 partial def lcLoop (h : IO.FS.Stream) (st : LcState) : IO Unit := do
@@ -8,10 +9,26 @@ partial def lcLoop (h : IO.FS.Stream) (st : LcState) : IO Unit := do
   for o in st'.out do IO.println o
   lcLoop h { st' with out := #[] }
 
+/-- tie D: one line `fn a b …` in, one line of outputs (values then the ub flag) out -/
+partial def evalLoop (h : IO.FS.Stream) : IO Unit := do
+  let line ← h.getLine
+  if line.isEmpty then return ()
+  match words line with
+  | [] => evalLoop h
+  | fn :: rest =>
+    match rest.mapM (·.toNat?) with
+    | none => IO.println "bad-args"
+    | some as =>
+      match CdsVerif.Gen.evalFn fn as with
+      | some outs => IO.println (" ".intercalate (outs.map toString))
+      | none => IO.println "unknown-fn"
+    evalLoop h
+
 def main (args : List String) : IO UInt32 := do
   let stdin ← IO.getStdin
   match args with
   | ["lincheck"] => lcLoop stdin {}; return 0
+  | ["eval"] => evalLoop stdin; return 0
   | _ =>
     IO.eprintln "usage: cdsdriver lincheck|replay <model>|eval <fn>"
     return 2
